@@ -386,7 +386,10 @@ TERMS = ["a", "X", "_", "1", "-1", "0.5", "1.5", "\"s\"", "[a,b]", "[a|T]", "f(X
          "m:a", "0.5::a", "(a:-b)", "t(_)", "1e400", "-0.5", "f(f(f(a)))", "\"\"", "[X|X]", "X-Y"]
 PROBS = ["0.5", "1.5", "-0.2", "2", "0", "1", "a", "\"s\"", "X", "P", "f(X)", "1/0", "1/2", "t(_)", "t(0.5)", "t(a)", "t(X)", "[1]",
          "(0.3+0.9)", "1e400", "-1e400", "0.5e-400", "t(_,a)", "t(1.5)", "(1/3)", "exp(1000)", "sqrt(-1)", "(a+1)", "0x1", "0.0",
-         "1.0", "0.9999999999999999999", "_", "(2-1.5)", "max(0.2,0.9)", "0.5::0.5"]
+         "1.0", "0.9999999999999999999", "_", "(2-1.5)", "max(0.2,0.9)", "0.5::0.5",
+         # values inside the tolerance band around the bounds (floating-point residues of computed probabilities)
+         "(4.35*100-435)", "(435-4.35*100)", "-1.0e-10", "1.0e-10", "-1.0e-12", "(1+1.0e-10)", "(1-1.0e-12)", "(0.3-0.1-0.2)",
+         "(0.1+0.2-0.3)", "1.0000000001", "-0.0", "(0.1*3)", "(1.1*1.1-0.21)"]
 ARITH = ["a + 1", "foo", "Y + 1", "1/0", "\"a\" * 2", "2 ** 10000.5", "1.0e308 * 10", "max(a, 1)", "[1] + 2", "1 // 0", "5 mod 0",
          "1.5 mod 2", "1 << -1", "sqrt(-1)", "log(0)", "- a", "1 + 2", "2 ** -1", "0 ** -1", "0.0 / 0", "7 rdiv 0", "abs(a)",
          "min(1, \"s\")", "1 xor 2.5", "\\ 1.5", "e", "pi", "inf", "nan", "random", "cot(0)", "acos(2)", "truncate(1.0e400)",
